@@ -71,6 +71,21 @@ pub enum Class {
     Request,
     Stream,
     Gate,
+    /// harness-level wait for a value another task is about to produce
+    Operand,
+}
+
+/// What a stream-class wait is waiting on (slot indices of the task's client), so that the
+/// quiescence check can tell whether the peer has already acted.
+#[derive(Clone, Copy, Debug, PartialEq, Eq)]
+pub enum Aux {
+    None,
+    /// waiting for the other end of the channel in slot (end, ch) to be claimed
+    Establish(End, u8),
+    /// waiting for the next item on the receiver in channel slot ch
+    NextItem(u8),
+    /// waiting for the end of the lifetime in slot lt
+    Lifetime(u8),
 }
 
 #[derive(Clone, Debug)]
@@ -82,6 +97,7 @@ pub struct Blocked {
     pub call: Option<(Uuid, u64)>,
     /// server loop waiting in next_call on service slot s of its client
     pub serving: Option<u8>,
+    pub aux: Aux,
 }
 
 pub struct TaskCtx {
@@ -105,7 +121,14 @@ impl TaskCtx {
         serving: Option<u8>,
         fut: F,
     ) -> F::Output {
-        *self.blocked.borrow_mut() = Some(Blocked { op_idx: self.cur.get(), what, class, call, serving });
+        *self.blocked.borrow_mut() = Some(Blocked { op_idx: self.cur.get(), what, class, call, serving, aux: Aux::None });
+        let r = fut.await;
+        *self.blocked.borrow_mut() = None;
+        r
+    }
+
+    pub async fn stream_aux<F: Future>(&self, what: &'static str, aux: Aux, fut: F) -> F::Output {
+        *self.blocked.borrow_mut() = Some(Blocked { op_idx: self.cur.get(), what, class: Class::Stream, call: None, serving: None, aux });
         let r = fut.await;
         *self.blocked.borrow_mut() = None;
         r
@@ -203,6 +226,8 @@ pub struct ClientCtx {
     pub lis: Vec<Slot<BusListener>>,
     /// listeners currently started (harness view, for the non-triviality accounting)
     pub lis_started: RefCell<Vec<bool>>,
+    /// listeners on which `destroy()` has succeeded
+    pub lis_destroyed: RefCell<Vec<bool>>,
     pub disc: Vec<Slot<Discoverer<u8>>>,
     pub scopes: Vec<Slot<Rc<LifetimeScope>>>,
     pub lts: Vec<Slot<Lifetime>>,
@@ -229,6 +254,7 @@ impl ClientCtx {
             rcv: slots(NCH),
             lis: slots(NLIS),
             lis_started: RefCell::new(vec![false; NLIS]),
+            lis_destroyed: RefCell::new(vec![false; NLIS]),
             disc: slots(NDISC),
             scopes: slots(NSCOPE),
             lts: slots(NLT),
@@ -241,11 +267,18 @@ impl ClientCtx {
         self.handle.borrow().clone()
     }
 
+    /// Drops the stashed pending replies (each drop aborts its call).
+    pub fn drop_replies(&self) -> usize {
+        let stash = std::mem::take(&mut *self.stash.borrow_mut());
+        let n = stash.len();
+        drop(stash);
+        n
+    }
+
     /// Drops every value and handle the application holds on this client.
     pub fn drop_all(&self) {
         self.cancel.set();
-        let stash = std::mem::take(&mut *self.stash.borrow_mut());
-        drop(stash);
+        self.drop_replies();
         let held = std::mem::take(&mut *self.held.borrow_mut());
         drop(held);
         for s in &self.proxies {
@@ -312,6 +345,8 @@ pub struct ChanInfo {
     /// the unclaimed end has been bound somewhere already
     pub bound: bool,
     pub claim_inflight: bool,
+    /// a claim of the other end has succeeded
+    pub claim_ok: bool,
     pub claim_attempts: u32,
     /// clients that hold (or held) an end
     pub parties: BTreeSet<usize>,
@@ -329,11 +364,21 @@ pub struct Board {
     pub inflight: BTreeMap<u64, (Uuid, usize)>,
     /// proxies' subscriptions: (client, proxy slot) -> service cookie with >=1 subscription
     pub subscribed: BTreeMap<(usize, u8), Uuid>,
-    pub unbound: [Vec<ChannelCookie>; 2],
+    /// unbound ends by publication index; None = the unbind did not happen
+    pub unbound: [Vec<Option<ChannelCookie>>; 2],
     pub chans: BTreeMap<Uuid, ChanInfo>,
-    pub scopes: Vec<LifetimeId>,
+    pub scopes: Vec<Option<LifetimeId>>,
     /// clients that created/destroyed objects or services in the current phase
     pub bus_mutators: BTreeSet<usize>,
+    /// items handed to `start_send_item` / returned by `next_item`, per channel cookie
+    pub sent: BTreeMap<Uuid, u64>,
+    pub received: BTreeMap<Uuid, u64>,
+    /// clients that sent on a channel
+    pub senders_of: BTreeMap<Uuid, BTreeSet<usize>>,
+    /// lifetime scopes that have been ended or dropped
+    pub ended_scopes: BTreeSet<LifetimeId>,
+    /// lifetime scopes by owning client
+    pub scope_owner: BTreeMap<LifetimeId, usize>,
 }
 
 pub struct World {
@@ -346,11 +391,18 @@ pub struct World {
     pub stats: RefCell<BTreeMap<&'static str, u32>>,
     pub nonce: Cell<u64>,
     pub allow_refused_claims: bool,
+    pub allow_late_abort: bool,
+    pub allow_listener_after_destroy: bool,
     pub trace_on: bool,
+    /// resources whose producer failed or was skipped: (client or BOARD, resource)
+    pub res_failed: RefCell<BTreeSet<(usize, Res)>>,
+    pub res_wakers: RefCell<Vec<Waker>>,
+    /// set by the driver at the end of the program: nobody waits for operands any more
+    pub cancel_waits: Cell<bool>,
 }
 
 impl World {
-    pub fn new(clients: Vec<Rc<ClientCtx>>, allow_refused_claims: bool) -> Rc<Self> {
+    pub fn new(clients: Vec<Rc<ClientCtx>>, allow: Allow) -> Rc<Self> {
         Rc::new(World {
             clients,
             tasks: RefCell::new(vec![]),
@@ -360,9 +412,61 @@ impl World {
             failures: RefCell::new(vec![]),
             stats: RefCell::new(BTreeMap::new()),
             nonce: Cell::new(0),
-            allow_refused_claims,
+            allow_refused_claims: allow.refused_claims,
+            allow_late_abort: allow.late_abort,
+            allow_listener_after_destroy: allow.listener_after_destroy,
             trace_on: true,
+            res_failed: RefCell::new(BTreeSet::new()),
+            res_wakers: RefCell::new(vec![]),
+            cancel_waits: Cell::new(false),
         })
+    }
+
+    pub fn wake_res_waiters(&self) {
+        for w in std::mem::take(&mut *self.res_wakers.borrow_mut()) {
+            w.wake();
+        }
+    }
+
+    pub fn cancel_all_waits(&self) {
+        self.cancel_waits.set(true);
+        self.wake_res_waiters();
+    }
+
+    /// Some(true) present, Some(false) producer failed, None not yet.
+    pub fn res_state(&self, ci: usize, res: Res) -> Option<bool> {
+        let cc = &self.clients[ci];
+        let (present, scope) = match res {
+            Res::Obj(i) => (cc.objs[i as usize].is_some(), ci),
+            Res::Svc(i) => (cc.svcs[i as usize].is_some(), ci),
+            Res::Proxy(i) => (cc.proxies[i as usize].is_some(), ci),
+            Res::Snd(i) => (cc.snd[i as usize].is_some(), ci),
+            Res::Rcv(i) => (cc.rcv[i as usize].is_some(), ci),
+            Res::SndEst(i) => (cc.snd[i as usize].with(|e| matches!(e, SndEnd::Est(_))) == Some(true), ci),
+            Res::RcvEst(i) => (cc.rcv[i as usize].with(|e| matches!(e, RcvEnd::Est(_))) == Some(true), ci),
+            Res::Lis(i) => (cc.lis[i as usize].is_some(), ci),
+            Res::Disc(i) => (cc.disc[i as usize].is_some(), ci),
+            Res::Scope(i) => (cc.scopes[i as usize].is_some(), ci),
+            Res::Lt(i) => (cc.lts[i as usize].is_some(), ci),
+            Res::BoardSvc(c, s) => (self.board.borrow().services.contains_key(&(c as usize, s)), BOARD),
+            Res::Unbound(e, k) => match self.board.borrow().unbound[e as usize].get(k as usize) {
+                Some(Some(_)) => return Some(true),
+                Some(None) => return Some(false),
+                None => (false, BOARD),
+            },
+            Res::BoardScope(k) => match self.board.borrow().scopes.get(k as usize) {
+                Some(Some(_)) => return Some(true),
+                Some(None) => return Some(false),
+                None => (false, BOARD),
+            },
+        };
+        if present {
+            Some(true)
+        } else if self.res_failed.borrow().contains(&(scope, res)) {
+            Some(false)
+        } else {
+            None
+        }
     }
 
     pub fn log(&self, s: String) {
@@ -477,7 +581,24 @@ pub async fn run_task(w: Rc<World>, t: Rc<TaskCtx>, ops: Vec<Op>) {
     let cc = w.clients[t.client].clone();
     for (i, op) in ops.iter().enumerate() {
         t.cur.set(i);
+        let unbound_len = {
+            let b = w.board.borrow();
+            [b.unbound[0].len(), b.unbound[1].len()]
+        };
+        let scopes_len = w.board.borrow().scopes.len();
+        let prod = produces(t.client, op, &unbound_len, scopes_len);
+        for key in &prod {
+            w.res_failed.borrow_mut().remove(key);
+        }
         let res = exec(&w, &t, &cc, op).await;
+        if res != "Ok" && res != "bound" && res != "unbound" {
+            // the producer did not deliver: whoever waits for its product gives up
+            let mut f = w.res_failed.borrow_mut();
+            for key in &prod {
+                f.insert(*key);
+            }
+        }
+        w.wake_res_waiters();
         w.log(format!("t{} c{} #{} {:?} -> {}", t.id, t.client, i, op, res));
     }
     t.cur.set(ops.len());
@@ -568,6 +689,25 @@ async fn exec(w: &Rc<World>, t: &Rc<TaskCtx>, cc: &Rc<ClientCtx>, op: &Op) -> St
             let seen = w.gate.phase();
             t.block(Class::Gate, "barrier", None, None, w.gate.wait_after(seen)).await;
             "opened".into()
+        }
+        Op::WaitFor(res) => {
+            let res = *res;
+            let r = t
+                .block(Class::Operand, "wait_for_operand", None, None, std::future::poll_fn(|cx| {
+                    if let Some(present) = w.res_state(ci, res) {
+                        return Poll::Ready(if present { "present" } else { "producer-failed" });
+                    }
+                    if w.cancel_waits.get() {
+                        return Poll::Ready("cancelled");
+                    }
+                    w.res_wakers.borrow_mut().push(cx.waker().clone());
+                    Poll::Pending
+                }))
+                .await;
+            if r != "present" {
+                w.count("wait:gave-up");
+            }
+            r.into()
         }
         Op::Yield(n) => {
             for _ in 0..*n {
@@ -812,6 +952,13 @@ async fn exec(w: &Rc<World>, t: &Rc<TaskCtx>, cc: &Rc<ClientCtx>, op: &Op) -> St
             }
         }
         Op::DropReply => {
+            if cc.shutdown_requested.get() && !cc.stash.borrow().is_empty() {
+                if !w.allow_late_abort {
+                    w.count("excluded:f5");
+                    return "excluded:f5".into();
+                }
+                w.count("late-abort");
+            }
             let x = cc.stash.borrow_mut().pop_front();
             match x {
                 Some((reply, nonce, _)) => {
@@ -900,7 +1047,7 @@ async fn exec(w: &Rc<World>, t: &Rc<TaskCtx>, cc: &Rc<ClientCtx>, op: &Op) -> St
                     let txt = res_name(&r);
                     if let Ok((snd, rcv)) = r {
                         let cookie = snd.cookie().0;
-                        w.board.borrow_mut().chans.insert(cookie, ChanInfo { creator: ci, creator_end: End::Snd, creator_alive: true, bound: false, claim_inflight: false, claim_attempts: 0, parties: [ci].into_iter().collect() });
+                        w.board.borrow_mut().chans.insert(cookie, ChanInfo { creator: ci, creator_end: End::Snd, creator_alive: true, bound: false, claim_inflight: false, claim_ok: false, claim_attempts: 0, parties: [ci].into_iter().collect() });
                         replace_end_snd(w, cc, *ch, Some(SndEnd::Pending(snd)));
                         replace_end_rcv(w, cc, *ch, Some(RcvEnd::Unclaimed(rcv)));
                     }
@@ -911,7 +1058,7 @@ async fn exec(w: &Rc<World>, t: &Rc<TaskCtx>, cc: &Rc<ClientCtx>, op: &Op) -> St
                     let txt = res_name(&r);
                     if let Ok((snd, rcv)) = r {
                         let cookie = snd.cookie().0;
-                        w.board.borrow_mut().chans.insert(cookie, ChanInfo { creator: ci, creator_end: End::Rcv, creator_alive: true, bound: false, claim_inflight: false, claim_attempts: 0, parties: [ci].into_iter().collect() });
+                        w.board.borrow_mut().chans.insert(cookie, ChanInfo { creator: ci, creator_end: End::Rcv, creator_alive: true, bound: false, claim_inflight: false, claim_ok: false, claim_attempts: 0, parties: [ci].into_iter().collect() });
                         replace_end_snd(w, cc, *ch, Some(SndEnd::Unclaimed(snd)));
                         replace_end_rcv(w, cc, *ch, Some(RcvEnd::Pending(rcv)));
                     }
@@ -923,39 +1070,39 @@ async fn exec(w: &Rc<World>, t: &Rc<TaskCtx>, cc: &Rc<ClientCtx>, op: &Op) -> St
             End::Snd => match cc.snd[*ch as usize].take() {
                 Some(SndEnd::Unclaimed(u)) => {
                     let ub: UnboundSender = u.unbind();
-                    w.board.borrow_mut().unbound[0].push(ub.cookie());
+                    w.board.borrow_mut().unbound[0].push(Some(ub.cookie()));
                     "unbound".into()
                 }
                 Some(other) => {
                     drop(cc.snd[*ch as usize].put_back(other));
+                    w.board.borrow_mut().unbound[0].push(None);
                     skip(w)
                 }
-                None => skip(w),
+                None => {
+                    w.board.borrow_mut().unbound[0].push(None);
+                    skip(w)
+                }
             },
             End::Rcv => match cc.rcv[*ch as usize].take() {
                 Some(RcvEnd::Unclaimed(u)) => {
                     let ub: UnboundReceiver = u.unbind();
-                    w.board.borrow_mut().unbound[1].push(ub.cookie());
+                    w.board.borrow_mut().unbound[1].push(Some(ub.cookie()));
                     "unbound".into()
                 }
                 Some(other) => {
                     drop(cc.rcv[*ch as usize].put_back(other));
+                    w.board.borrow_mut().unbound[1].push(None);
                     skip(w)
                 }
-                None => skip(w),
+                None => {
+                    w.board.borrow_mut().unbound[1].push(None);
+                    skip(w)
+                }
             },
         },
         Op::Bind { ch, end, k } => {
             let Some(h) = cc.h() else { return skip(w) };
-            let cookie = {
-                let b = w.board.borrow();
-                let v = &b.unbound[*end as usize];
-                if v.is_empty() {
-                    None
-                } else {
-                    Some(v[*k as usize % v.len()])
-                }
-            };
+            let cookie = w.board.borrow().unbound[*end as usize].get(*k as usize).copied().flatten();
             let Some(cookie) = cookie else { return skip(w) };
             {
                 let mut b = w.board.borrow_mut();
@@ -1021,7 +1168,12 @@ async fn exec(w: &Rc<World>, t: &Rc<TaskCtx>, cc: &Rc<ClientCtx>, op: &Op) -> St
                     let r = t.req("claim_sender", u.claim()).await;
                     let txt = res_name(&r);
                     match r {
-                        Ok(s) => drop(cc.snd[*ch as usize].put_back(SndEnd::Est(s))),
+                        Ok(s) => {
+                            if let Some(i) = w.board.borrow_mut().chans.get_mut(&cookie) {
+                                i.claim_ok = true;
+                            }
+                            drop(cc.snd[*ch as usize].put_back(SndEnd::Est(s)))
+                        }
                         Err(_) => w.count("claim-refused"),
                     }
                     txt
@@ -1031,7 +1183,12 @@ async fn exec(w: &Rc<World>, t: &Rc<TaskCtx>, cc: &Rc<ClientCtx>, op: &Op) -> St
                     let r = t.req("claim_receiver", u.claim(CAPS[*cap as usize])).await;
                     let txt = res_name(&r);
                     match r {
-                        Ok(s) => drop(cc.rcv[*ch as usize].put_back(RcvEnd::Est(s))),
+                        Ok(s) => {
+                            if let Some(i) = w.board.borrow_mut().chans.get_mut(&cookie) {
+                                i.claim_ok = true;
+                            }
+                            drop(cc.rcv[*ch as usize].put_back(RcvEnd::Est(s)))
+                        }
                         Err(_) => w.count("claim-refused"),
                     }
                     txt
@@ -1046,7 +1203,7 @@ async fn exec(w: &Rc<World>, t: &Rc<TaskCtx>, cc: &Rc<ClientCtx>, op: &Op) -> St
             End::Snd => {
                 let slot = &cc.snd[*ch as usize];
                 let r = t
-                    .stream("establish", slot_op(slot, |e, cx| match e {
+                    .stream_aux("establish", Aux::Establish(End::Snd, *ch), slot_op(slot, |e, cx| match e {
                         SndEnd::Pending(p) => p.poll_wait_established(cx).map(|_| true),
                         _ => Poll::Ready(false),
                     }))
@@ -1075,7 +1232,7 @@ async fn exec(w: &Rc<World>, t: &Rc<TaskCtx>, cc: &Rc<ClientCtx>, op: &Op) -> St
             End::Rcv => {
                 let slot = &cc.rcv[*ch as usize];
                 let r = t
-                    .stream("establish", slot_op(slot, |e, cx| match e {
+                    .stream_aux("establish", Aux::Establish(End::Rcv, *ch), slot_op(slot, |e, cx| match e {
                         RcvEnd::Pending(p) => p.poll_wait_established(cx).map(|_| true),
                         _ => Poll::Ready(false),
                     }))
@@ -1119,12 +1276,15 @@ async fn exec(w: &Rc<World>, t: &Rc<TaskCtx>, cc: &Rc<ClientCtx>, op: &Op) -> St
                     Some(Some(Ok(()))) => {
                         let nonce = w.next_nonce();
                         let r = slot.with(|e| match e {
-                            SndEnd::Est(s) => s.start_send_item(nonce).is_ok(),
-                            _ => false,
+                            SndEnd::Est(s) => (s.start_send_item(nonce).is_ok(), s.cookie().0),
+                            _ => (false, Uuid::nil()),
                         });
-                        if r == Some(true) {
+                        if let Some((true, c)) = r {
                             sent += 1;
                             w.count("item:sent");
+                            let mut b = w.board.borrow_mut();
+                            *b.sent.entry(c).or_insert(0) += 1;
+                            b.senders_of.entry(c).or_default().insert(ci);
                         } else {
                             break;
                         }
@@ -1142,7 +1302,7 @@ async fn exec(w: &Rc<World>, t: &Rc<TaskCtx>, cc: &Rc<ClientCtx>, op: &Op) -> St
             let mut got = 0;
             for _ in 0..*n {
                 let r = t
-                    .stream("next_item", slot_op(slot, |e, cx| match e {
+                    .stream_aux("next_item", Aux::NextItem(*ch), slot_op(slot, |e, cx| match e {
                         RcvEnd::Est(r) => match r.poll_next_item::<u64>(cx) {
                             Poll::Pending if !*wait => Poll::Ready(None),
                             Poll::Pending => Poll::Pending,
@@ -1155,6 +1315,9 @@ async fn exec(w: &Rc<World>, t: &Rc<TaskCtx>, cc: &Rc<ClientCtx>, op: &Op) -> St
                     Some(Some(Ok(Some(_)))) => {
                         got += 1;
                         w.count("item:received");
+                        if let Some(c) = slot.with(|e| e.cookie().0) {
+                            *w.board.borrow_mut().received.entry(c).or_insert(0) += 1;
+                        }
                     }
                     _ => break,
                 }
@@ -1220,6 +1383,7 @@ async fn exec(w: &Rc<World>, t: &Rc<TaskCtx>, cc: &Rc<ClientCtx>, op: &Op) -> St
             let txt = res_name(&r);
             if let Ok(bl) = r {
                 drop_listener_accounting(w, cc, *l);
+                cc.lis_destroyed.borrow_mut()[*l as usize] = false;
                 drop(cc.lis[*l as usize].put(bl));
             }
             txt
@@ -1259,6 +1423,13 @@ async fn exec(w: &Rc<World>, t: &Rc<TaskCtx>, cc: &Rc<ClientCtx>, op: &Op) -> St
             if !slot.is_some() {
                 return skip(w);
             }
+            if cc.lis_destroyed.borrow()[*l as usize] {
+                if !w.allow_listener_after_destroy {
+                    w.count("excluded:f6");
+                    return "excluded:f6".into();
+                }
+                w.count("listener-polled-after-destroy");
+            }
             let mut got = 0;
             for _ in 0..*n {
                 let r = t
@@ -1282,7 +1453,10 @@ async fn exec(w: &Rc<World>, t: &Rc<TaskCtx>, cc: &Rc<ClientCtx>, op: &Op) -> St
             let Some(mut bl) = cc.lis[*l as usize].take() else { return skip(w) };
             drop_listener_accounting(w, cc, *l);
             let r = t.req("destroy_bus_listener", bl.destroy()).await;
-            drop(cc.lis[*l as usize].put_back(bl));
+            let back = cc.lis[*l as usize].put_back(bl).is_none();
+            if back && r.is_ok() {
+                cc.lis_destroyed.borrow_mut()[*l as usize] = true;
+            }
             res_name(&r)
         }
         Op::DropListener { l } => match cc.lis[*l as usize].take() {
@@ -1371,22 +1545,39 @@ async fn exec(w: &Rc<World>, t: &Rc<TaskCtx>, cc: &Rc<ClientCtx>, op: &Op) -> St
         }
 
         Op::CreateScope { sc } => {
-            let Some(h) = cc.h() else { return skip(w) };
+            let Some(h) = cc.h() else {
+                w.board.borrow_mut().scopes.push(None);
+                return skip(w);
+            };
             let r = t.req("create_lifetime_scope", h.create_lifetime_scope()).await;
             let txt = res_name(&r);
-            if let Ok(scope) = r {
-                w.board.borrow_mut().scopes.push(scope.id());
-                drop(cc.scopes[*sc as usize].put(Rc::new(scope)));
+            match r {
+                Ok(scope) => {
+                    {
+                        let mut b = w.board.borrow_mut();
+                        b.scopes.push(Some(scope.id()));
+                        b.scope_owner.insert(scope.id(), ci);
+                    }
+                    if let Some(old) = cc.scopes[*sc as usize].put(Rc::new(scope)) {
+                        w.board.borrow_mut().ended_scopes.insert(old.id());
+                        drop(old);
+                    }
+                }
+                Err(_) => w.board.borrow_mut().scopes.push(None),
             }
             txt
         }
         Op::EndScope { sc } => {
             let Some(scope) = cc.scopes[*sc as usize].get() else { return skip(w) };
             let r = t.req("end_lifetime_scope", scope.end()).await;
+            if matches!(r, Ok(()) | Err(Error::InvalidLifetime)) {
+                w.board.borrow_mut().ended_scopes.insert(scope.id());
+            }
             res_name(&r)
         }
         Op::DropScope { sc } => match cc.scopes[*sc as usize].take() {
             Some(x) => {
+                w.board.borrow_mut().ended_scopes.insert(x.id());
                 drop(x);
                 "dropped".into()
             }
@@ -1394,14 +1585,7 @@ async fn exec(w: &Rc<World>, t: &Rc<TaskCtx>, cc: &Rc<ClientCtx>, op: &Op) -> St
         },
         Op::CreateLifetime { lt, k } => {
             let Some(h) = cc.h() else { return skip(w) };
-            let id = {
-                let b = w.board.borrow();
-                if b.scopes.is_empty() {
-                    None
-                } else {
-                    Some(b.scopes[*k as usize % b.scopes.len()])
-                }
-            };
+            let id = w.board.borrow().scopes.get(*k as usize).copied().flatten();
             let Some(id) = id else { return skip(w) };
             let r = t.req("create_lifetime", h.create_lifetime(id)).await;
             let txt = res_name(&r);
@@ -1415,7 +1599,7 @@ async fn exec(w: &Rc<World>, t: &Rc<TaskCtx>, cc: &Rc<ClientCtx>, op: &Op) -> St
             if !slot.is_some() {
                 return skip(w);
             }
-            let r = t.stream("lifetime_ended", slot_op(slot, |l, cx| l.poll_ended(cx))).await;
+            let r = t.stream_aux("lifetime_ended", Aux::Lifetime(*lt), slot_op(slot, |l, cx| l.poll_ended(cx))).await;
             match r {
                 Some(()) => "ended".into(),
                 None => "gone".into(),
